@@ -1,3 +1,42 @@
-From PV Require Import Model.RankCrowd.
-Theorem placeholder : True. Proof. exact I. Qed.
-Print Assumptions placeholder.
+(* C03  Survival returns exactly n_survive distinct, untouched members.  Statements only.
+   The survival models return *indices into the input population*; individuals are immutable values of the
+   model, so "the same object, never a copy" is identity of indices and X/F/G/H cannot change (the attributes
+   rank / crowding / cv_rank are returned separately).  Every oracle answer (feasibility split, fronts,
+   crowding values, random argsort) is validated in place, so the theorems quantify over ALL oracle streams
+   and over every crowding metric (any crowding values). *)
+From Coq Require Import List Bool Arith.
+From PV Require Import Base.Num Base.Res Base.ListX Model.Dominance Model.RankCrowd Proofs.RankCrowdP.
+Import ListNotations.
+
+Theorem C03_rank_and_crowding :
+  forall (N : num) constr (pop : list (mind N)) n s surv attrs s',
+    rnc_survival constr pop n s = Ok ((surv, attrs), s') -> pop <> [] -> 1 <= n ->
+    length surv = Nat.min n (length pop) /\ NoDup surv /\ Forall (fun i => i < length pop) surv.
+Proof. intros N constr pop n s surv attrs s' H Hne Hn. exact (proj2 (rnc_survival_spec constr pop n s surv attrs s' H Hne Hn)). Qed.
+Print Assumptions C03_rank_and_crowding.
+
+Theorem C03_constr_rank_and_crowding :
+  forall (N : num) constr (pop : list (mind N)) n s surv attrs cvr s',
+    crnc_survival constr pop n s = Ok ((surv, attrs, cvr), s') -> pop <> [] -> 1 <= n ->
+    length surv = Nat.min n (length pop) /\ NoDup surv /\ Forall (fun i => i < length pop) surv.
+Proof. intros N constr pop n s surv attrs cvr s' H Hne Hn. exact (proj2 (crnc_survival_spec constr pop n s surv attrs cvr s' H Hne Hn)). Qed.
+Print Assumptions C03_constr_rank_and_crowding.
+
+(* the core loop: exactly the quota survives whatever the crowding values and the random tie-breaking are *)
+Theorem C03_front_loop :
+  forall (N : num) (F : list (list N)) n s surv attrs s',
+    rnc_do F n s = Ok ((surv, attrs), s') -> n <= length F ->
+    exists fronts, rnc_result F n fronts surv /\ length surv = n /\ NoDup surv /\ Forall (fun i => i < length F) surv.
+Proof. exact @rnc_do_spec. Qed.
+Print Assumptions C03_front_loop.
+
+(* non-vacuity: 4 individuals, first front {0,1,2} split to keep 2; any crowding values would do *)
+From Coq Require Import QArith.
+From PV Require Import Base.NumQ.
+Example C03_nonvacuous :
+  rnc_survival (N := Qn) false
+    [@Build_mind Qn 0 [0; 3]%Q 0%Q true []; @Build_mind Qn 1 [1; 1]%Q 0%Q true [];
+     @Build_mind Qn 2 [3; 0]%Q 0%Q true []; @Build_mind Qn 3 [2; 2]%Q 0%Q true []] 2
+    [@ONds Qn 2 [[0; 1; 2]]%nat; @OCrowd Qn 1 [5; 1; 5]%Q; @OSort Qn true [0; 2; 1]%nat]
+  = Ok (([0; 2]%nat, [(0, 0, 5%Q); (1, 0, 1%Q); (2, 0, 5%Q)]%nat), []).
+Proof. vm_compute. reflexivity. Qed.
